@@ -77,13 +77,13 @@ def run_history(h):
 
 
 def s17_histories(ctx):
-    res = StreamResult("S17-histories", rule="histories of <= 8 calls (4 cached operations + the crop with each of its two flags flipped x 10 near-identical inputs: base, one coordinate, one attribute, row "
+    res = StreamResult("S17-histories", rule="histories of <= 8 calls (4 cached operations + contour-grid sampling over a caller-owned precursor grid (cold / warm / near-identical input) + the crop with each of its two flags flipped x 10 near-identical inputs: base, one coordinate, one attribute, row "
                        "order, CRS, CRS on the areas only, CRS on the traces only, threshold, area, a multi-part trace) in two processes sharing a cache directory, with faults between them on the files written under it: "
                        "delete, truncate at k/8, flip a byte; every call compared with the result with caching disabled; non-trivial = history with a fault "
                        "on a file that a later call reads")
     rng = random.Random(f"{ctx.seed}:S17")
     # reference: caching disabled, one process per (op, input)
-    pairs = [(o, i) for o in OPS for i in INPUTS]
+    pairs = [(o, i) for o in OPS for i in INPUTS] + [("grid", "base"), ("grid", "coord")]
     with ThreadPoolExecutor(14) as ex:
         refs_l = list(ex.map(lambda pr: child([pr], None, disable=True)[0], pairs))
     ref = {pr: r for pr, r in zip(pairs, refs_l)}
@@ -112,6 +112,9 @@ def s17_histories(ctx):
     for a, b in (("crop_allow", "crop"), ("crop", "crop_allow"), ("crop_nodata", "crop"), ("crop", "crop_nodata")):
         for inp in ("mls", "base"):
             hists.append({"calls1": [(a, inp)], "faults": [], "calls2": [(b, inp), (a, inp)]})
+    # grid sampling over a caller-owned precursor grid, cold then warm (twice), and a near-identical input in between: result AND the caller's grid
+    # (its columns and labels after the call) must not depend on whether the call was a hit
+    hists.append({"calls1": [("grid", "base")], "faults": [], "calls2": [("grid", "base"), ("grid", "coord"), ("grid", "base")]})
     with ThreadPoolExecutor(14) as ex:
         outs = list(ex.map(run_history, hists))
     for h, (o1, o2, applied, nfiles) in zip(hists, outs):
